@@ -239,7 +239,7 @@ def J3(inp, r, op, pos=0):
                vars=dict(op=op, cut=cut, nprim=nprim, pos=pos, r=r))
 
 
-@obligation('J5', props=('C08', 'C06'), quick=[dict(n=n, pos=p) for n in (10, 11, 12) for p in range(0, 4)] + [dict(n=12, pos=12), dict(n=11, pos=6)],
+@obligation('J5', props=('C08', 'C06'), quick=[dict(n=n, pos=p) for n in (10, 11, 12) for p in range(0, 4)] + [dict(n=12, pos=12), dict(n=11, pos=6), dict(n=21, pos=2), dict(n=21, pos=1)],
             thorough=[dict(n=n, pos=p) for n in (10, 11, 12, 20, 21, 22) for p in range(n + 1)], stubs=_STUBS,
             bounds='n in 10..22 records of size 0 or 7 (the tail-drop code checkpoints every 10 removed records), drop of any tail, one more append, reopen')
 def J5(inp, n, pos):
@@ -255,11 +255,20 @@ def J5(inp, n, pos):
         ref.add(d_, i + 1, 0)
     _, exc = guard(j.deleteEntriesFrom, pos)
     ref.deleteEntriesFrom(pos)
+    cl0 = {}
+    if exc is None:
+        fs.recording = False
+        jr, excr = guard(J.FileJournal, 'jf')             # a restart right after the tail drop
+        fs.recording = True
+        cl0['reopen_after_drop_no_exception'] = excr is None
+        if excr is None:
+            cl0['reopened_after_drop_same_as_memory_journal'] = _journal_equals(jr, ref)
     new = disk.payload(fs, 99, inp.int('newsize', 0, 40))
     if exc is None:
         _, exc = guard(j.add, new, pos + 1, 1)
         ref.add(new, pos + 1, 1)
     cl = {'no_exception': exc is None}
+    cl.update(cl0)
     if exc is None:
         cl['same_as_memory_journal'] = _journal_equals(j, ref)
         j2, exc2 = guard(J.FileJournal, 'jf')
